@@ -15,12 +15,14 @@ TECHNIQUE = ("Coq proofs (induction on the digit loops; Flocq binary64 for the f
              "double bit patterns compared exactly); oracle = canonical decimal / exact inverse for integers, correct "
              "rounding and half-ulp distance in exact integer arithmetic for doubles")
 LEVEL_TEXT = ("Integers: for every int32 the modelled itoa yields the canonical decimal text (INT_MIN included) and for "
-              "every non-negative int32 / every uint32 / every uint16 the modelled fast_atoi returns the value back; for "
-              "negative values the exact (wrong) result is characterised and shown different from the value except for one "
-              "int32.  Doubles: the general round-trip law is refuted by kernel-checked witnesses (tie-branch roll-over, "
-              "double rounding, inexact parser, exponential format just below 2^31); proved: every integral double below "
-              "2^31 renders as its decimal and parses back bit-exactly at every precision 0..9, and every rendered text "
-              "has the shape [-]digits[.digits].")
+              "every non-negative int32 / every uint32 / every uint16 the modelled fast_atoi returns the value back (the unsigned "
+              "parsers on arbitrary text); for negative values the exact (wrong) result is characterised and shown different from "
+              "the value except for one int32; under the C++ rules (overflow-checked model) the parse of [2147483600, INT_MAX] is a "
+              "signed overflow and of every negative int a shift of a negative value.  Doubles: the general round-trip law is "
+              "refuted by kernel-checked witnesses (tie-branch roll-over, double rounding, inexact parser, exponential format and "
+              "int overflow just below 2^31); proved: every integral double below 2^31 renders as its decimal and parses back "
+              "bit-exactly at every precision 0..9; for every finite double every rendered text has the shape "
+              "[-]digits[.digits] with 1..p fraction digits, and inside the 2^31-1 threshold a text is always produced.")
 LEVEL_NOTE = ("Trusted: Coq kernel, Flocq 4.1.0 (binary64 operations; its Reals axioms), extraction (ExtrOcamlBasic), the "
               "hand transcriptions (checked by the correspondence run), x86-64 SSE2 double arithmetic (round to nearest "
               "even, no x87 excess precision, no FMA contraction), char signed, the harness is compiled with -fwrapv and "
@@ -33,7 +35,8 @@ TRUSTED_BASE = [
     "Coq 8.16.1 kernel (coqc), vm_compute only",
     "Flocq 4.1.0 IEEE754.BinarySingleNaN/Binary/Bits (binary64 operations and bit decoding); float theorems depend on "
     "the Coq Reals axioms ClassicalDedekindReals.sig_forall_dec, ClassicalDedekindReals.sig_not_dec, "
-    "FunctionalExtensionality.functional_extensionality_dep (listed by Print Assumptions); the integer theorems are axiom-free",
+    "FunctionalExtensionality.functional_extensionality_dep, Classical_Prop.classic (listed by Print Assumptions); the integer "
+    "theorems are axiom-free",
     "Extraction with ExtrOcamlBasic, no Extract Constant; OCaml 4.13.1",
     "hand-written models coq/C08/NumInt.v (itoa<int>, itoa<unsigned>, fast_atoi<T> of include/fix8/f8utils.hpp) and "
     "coq/C08/NumFloat.v (modp_dtoa of runtime/modp_numtoa.c, fast_atof of f8utils.hpp), tied by differential execution",
@@ -46,7 +49,8 @@ ASSUMPTIONS = [
     "the in-place character reversal at the end of itoa/modp_dtoa is modelled as list reversal",
     "for |value| > 2^31-1 modp_dtoa calls sprintf(\"%e\"): glibc's output is not modelled, both sides are reduced to the token EXP",
     "fast_atoi<int> on text with a '-' or on overflow is formally undefined (shift of a negative value / signed overflow); the "
-    "two's-complement result produced by the compiler under -fwrapv is what is modelled",
+    "two's-complement result produced by the compiler under -fwrapv is what is modelled; in the strict (UBSan) run the model "
+    "admits both observable outcomes of such an operation, the sanitizer trap and the wrapped value",
 ]
 RULE = ("integers: boundaries (0, +-1, INT_MIN/MAX, UINT_MAX, 65535/6), powers of ten and of two +-1, random values of every "
         "digit count, both signs; raw parser texts (digits, signs, leading zeros, other bytes, SOH-terminated); doubles: for each "
@@ -423,10 +427,10 @@ def postprocess(case, r):
     if case.line.startswith("dtoa ") and EXP_RE.match(r):
         return "EXP"
     if case.line.startswith("itoaS ") and r.startswith("CRASH") and "f8utils.hpp" in r:
-        if "left shift of negative value" in r:
-            return "UB-SHIFT-NEGATIVE"
-        if "signed integer overflow" in r:
-            return "UB-SIGNED-OVERFLOW"
+        # which rule is reported first depends on how the arithmetic is spelled (shift or multiply):
+        # one token for "undefined behaviour reported inside fast_atoi"
+        if "left shift of negative value" in r or "signed integer overflow" in r or "left shift of" in r:
+            return "UB"
     # ++whole on INT_MAX in the rounding stage (UBSan stops the process there)
     if case.line.startswith("dtoa ") and r.startswith("CRASH") and "signed integer overflow: 2147483647 + 1" in r \
             and "modp_numtoa.c" in r:
@@ -600,7 +604,7 @@ def dtoa_explained(a, want):
 
 def c_atoi_negative(case, r, m):
     w = case.line.split()
-    if w[0] == "itoa":
+    if w[0] in ("itoa", "itoaS"):
         v = int(w[1])
         parts = r.split(" ")
         # the rendering clause holds, only the parse-back clause fails
@@ -613,12 +617,12 @@ def c_atoi_negative(case, r, m):
 
 def c_atoi_top_overflow(case, r, m):
     w = case.line.split()
-    return w[0] == "itoaS" and 2147483600 <= int(w[1]) <= INT_MAX and r == "UB-SIGNED-OVERFLOW"
+    return w[0] == "itoaS" and 2147483600 <= int(w[1]) <= INT_MAX and r == "UB"
 
 
 def c_atoi_neg_shift(case, r, m):
     w = case.line.split()
-    return w[0] == "itoaS" and INT_MIN <= int(w[1]) < 0 and r == "UB-SHIFT-NEGATIVE"
+    return w[0] == "itoaS" and INT_MIN <= int(w[1]) < 0 and r == "UB"
 
 
 def c_rollover(case, r, m):
